@@ -77,11 +77,43 @@ func tornFile() {
 				}
 			}
 		}
-		for _, sq := range seqs {
+		// ... in every environment: the checkpoint file is the only place the backend may depend on (a temporary
+		// directory that does not exist or lives on another filesystem - read-only root, mounted volume - is none
+		// of its business)
+		oldTmp, hadTmp := os.LookupEnv("TMPDIR")
+		defer func() {
+			if hadTmp {
+				os.Setenv("TMPDIR", oldTmp)
+			} else {
+				os.Unsetenv("TMPDIR")
+			}
+		}()
+		envs := []string{"", filepath.Join(dir, "no-such-tmp-dir")}
+		var runs [][]int
+		for ei := range envs {
+			for _, sq := range seqs {
+				runs = append(runs, append([]int{ei}, sq...))
+			}
+		}
+		for _, run := range runs {
+			sq := run[1:]
+			if envs[run[0]] == "" {
+				if hadTmp {
+					os.Setenv("TMPDIR", oldTmp)
+				} else {
+					os.Unsetenv("TMPDIR")
+				}
+			} else {
+				os.Setenv("TMPDIR", envs[run[0]])
+			}
 			_ = os.Remove(fn)
 			md2 := metadata.NewFSMetadata(cfg)
 			for step, si := range sq {
-				st := states[si]
+				st := map[uint16]*models.CheckpointDocument{}
+				for k, v := range states[si] {
+					st[k] = v
+				}
+				want := states[si]
 				dirty := map[uint16]bool{}
 				var ids []uint16
 				for k := range st {
@@ -98,10 +130,14 @@ func tornFile() {
 					res.Violations = append(res.Violations, fmt.Sprintf("saves %v into one file: after save #%d the file cannot be loaded (%v)", sq, step, err))
 					break
 				}
-				for vb, want := range st {
+				for vb, w := range want {
 					d, ok := got.Load(vb)
-					if !ok || show(d) != show(want) {
-						res.Violations = append(res.Violations, fmt.Sprintf("saves %v into one file: after save #%d vb%d loads as %s, saved was %s", sq, step, vb, show(d), show(want)))
+					if !ok || show(d) != show(w) {
+						where := ""
+						if envs[run[0]] != "" {
+							where = " (TMPDIR names a directory that does not exist)"
+						}
+						res.Violations = append(res.Violations, fmt.Sprintf("saves %v into one file%s: after save #%d vb%d loads as %s, saved was %s", sq, where, step, vb, show(d), show(w)))
 					}
 				}
 			}
